@@ -164,5 +164,5 @@ def run(rep, tier, seed, only=None):
     rep.outside = ["circuits without inputs (documented precondition)", "constants carrying operands (not expressible in bench)"]
     rep.rule = "program = circuit (+blocks); every pre-existing gate's function compared before/after by z3 over all inputs"
     rep.explanation = "translation validation of into_bench"
-    items = [("lemma", None)] + [("seeded", (seed * 57 + s, 40 if thorough else 15, 14 if thorough else 10)) for s in range(32 if thorough else 15)]
+    items = [("lemma", None)] + [("seeded", (seed * 57 + s, 40 if thorough else 15, 14 if thorough else 10)) for s in range(128 if thorough else 47)]
     rep.pmap(unit, items)
